@@ -111,9 +111,39 @@ def check_program(name, slots, program, w, wd, sieve, stats, split_depth, primed
     return True
 
 
+def work_deep(task):
+    """the same argument handed down a chain of N macros (N up to just below the default depth limit), alone and through a rep at
+    every level: the image equals the two-statement program `L: ;L` / its rep form, whatever the parameter is called."""
+    from fjv.enginecheck import scratch
+    _, tier, w, depth = task
+    sieve = Sieve(PROP)
+    stats = {'assemblies': 0, 'programs': 0, 'splits': 0, 'with_collision': 0}
+    wd = scratch()
+    for P, L, via_rep in itertools.product(POOL_DEEP, POOL_DEEP, (False, True)):
+        body = (lambda k: f'rep(1, i) c{k + 1} {P}' if via_rep else f'c{k + 1} {P}')
+        text = ''.join(f'def c{k} {P} {{\n    {body(k)}\n}}\n' for k in range(depth)) + f'def c{depth} {P} {{\n    ;{P}\n    {P};\n}}\n{L}:\nc0 {L}\nc0 {L}+2*w\n'
+        ref_text = f'{L}:\n;{L}\n{L};\n;{L}+2*w\n{L}+2*w;\n'
+        ref = assemble_image(ref_text, w, wd, 'ref')
+        got = assemble_image(text, w, wd, 'orig')
+        stats['assemblies'] += 2
+        stats['programs'] += 1
+        stats['with_collision'] += int(P == L)
+        if got != ref:
+            sieve.add({'kind': 'deep call chain differs from its inlining', 'class': f'deep chain {depth}',
+                       'case': {'skeleton': 'deep-chain', 'depth': depth, 'param': P, 'label': L, 'via_rep': via_rep, 'w': w, 'text': text[:400] + ' ...'},
+                       'expected': ref if ref[0] != 'ok' else 'the image of ' + repr(ref_text), 'observed': got if got[0] != 'ok' else 'another image',
+                       'summary': f'chain of {depth} macros (param {P}, label {L}, via_rep={via_rep}) w={w}: {got[0]} {str(got[1])[:120] if got[0] != "ok" else "different image"}'})
+    return stats, sieve.result(), None, {f'deep-chain-{depth}': 8}
+
+
+POOL_DEEP = ('a', 'b')
+
+
 def work(task):
     from fjv.enginecheck import scratch
     from fjv import gen_macros
+    if task[0] == 'deep':
+        return work_deep(task)
     tier, w, part, nparts = task
     sieve = Sieve(PROP)
     stats = {'assemblies': 0, 'programs': 0, 'splits': 0, 'with_collision': 0}
@@ -140,6 +170,15 @@ def replay(args):
     from fjv import gen_macros
     rec = load_replay(args.replay)
     c = rec['case']
+    if c.get('skeleton') == 'deep-chain':
+        st, res, _, _ = work_deep(('deep', 'quick', c['w'], c['depth']))
+        for r in res[0]:
+            print('PROBLEM', r['summary'])
+        if res[0]:
+            print(f'VIOLATION property={PROP} replay={args.replay}')
+            return 1
+        print('replay: ok')
+        return 0
     sk = [s for s in gen_macros.SKELETONS if s[0] == c['skeleton']][0]
     program = sk[3](tuple(c['slots']))
     sieve = Sieve(PROP)
@@ -165,6 +204,7 @@ def main():
     run = Run(PROP, 'exploration', args)
     widths = (16, 32, 64) if args.tier == 'thorough' else (16, 64)
     tasks = [(args.tier, w, p, 16) for w in widths for p in range(16)]
+    tasks += [('deep', args.tier, w, d) for w in widths for d in (45, 440, 600, 850, 898)]
     total, samples, per = {}, [], {}
     for stats, res, sample, ps in pmap(work, tasks, args.jobs):
         for k, v in stats.items():
